@@ -19,7 +19,7 @@ def run(chk):
                 'descendants must equal the model\'s and the C03/C04 clauses are re-evaluated on the edited real tree. Random longer '
                 'histories chosen by the driver from the real tree\'s views are validated by TLC (EditsTrace). A case is a history.')
     recs = E.explore(chk, 'depth2', [DOCS[0], DOCS[1], DOCS[3]] if quick else DOCS, 2, E.ALL_KINDS, names=('zz',), strs=('S t',),
-                     materials=(('X',), (7,)) if quick else (('X',), (1,), (5, 'Y'), (7,)))
+                     materials=(('X',), (7,)) if quick else (('X',), (5, 'Y'), (7,)))
     E.replay_all(chk, recs, 'C15')
     # string assignments including the empty string, three deep (the string is read and set again after it was emptied)
     recs3 = E.explore(chk, 'strings3', ['\\begin{c}x\\end{c} \\t{T}'], 3, ['set_string', 'append', 'delete', 'args_append'], names=('zz',), strs=('', 'u'),
@@ -32,7 +32,7 @@ def run(chk):
     for r in recs[:1] + recs[-2:]:
         chk.sample({'source': from_atoms(r['i']), 'history': [E.show_op(e['op']) for e in r['h']], 'text_after': from_atoms(r['h'][-1]['obs']['t'])})
     srcs = c05.TWINS
-    traces = [E.random_history(rng, rng.choice(srcs), 8 if quick else 14, E.ALL_KINDS) for _ in range(800 if quick else 6000)]
+    traces = [E.random_history(rng, rng.choice(srcs), 8 if quick else 14, E.ALL_KINDS) for _ in range(800 if quick else 2500)]
     E.validate(chk, traces, 'C15')
     chk.exhaustive = False
     chk.assumptions += ['new material is always freshly parsed', '\\item is never renamed and nothing is renamed to item',
